@@ -796,3 +796,14 @@ func GenAssign(t *rapid.T, g *hx.Graph, strategy string) (assign []string, anyIn
 	}
 	return
 }
+
+// GenSelection draws a selection set on a type (valid by construction), without variables.
+func GenSelection(t *rapid.T, s *hx.Schema, typeName string, p Profile, label string) ([]*hx.Sel, []*hx.Frag) {
+	g := &docGen{t: t, s: s, p: p, doc: &hx.Doc{}, vars: map[string]*hx.VarDef{}, vals: map[string]hx.Val{}, budget: 25, building: map[string]bool{}}
+	depth := p.MaxDepth
+	if depth == 0 {
+		depth = 3
+	}
+	sels := g.genSels(typeName, depth, label)
+	return sels, g.doc.Frags
+}
